@@ -297,6 +297,33 @@ theorem csv_selection_cells (dh : String × Ser V → String) (b : Block V) (p :
   obtain ⟨i, hi⟩ := List.getElem?_of_mem ht
   exact h.1 i t _ hi (by rw [List.getElem?_map, hi]; rfl)
 
+
+/-- **the re-imported series period by period, for ANY selection of periods** (stepped, descending, hand-picked, repeated): the
+series `from_csv_file` returns -- after its final `trim()` -- has the original series' own row at every written period and a
+NaN row at every other period -/
+theorem csv_selection_rowAt (dh : String × Ser V → String) (b : Block V) (p : String × Ser V) (hf : b.freq ≠ .U)
+    (hne : b.periods ≠ []) (hrows : ∀ r ∈ p.2.rows, r.length = p.2.nv) (t : Int) :
+    (reimport dh b p).2.rowAt t = if t ∈ b.periods then p.2.rowAt t else nanRow p.2.nv :=
+  reimport_rowAt dh b p hf hne hrows t
+
+/-- `Series.trim()` changes no row (it only drops NaN rows at the two ends) -/
+theorem trim_changes_no_row (s : Ser V) (hrows : ∀ r ∈ s.rows, r.length = s.nv) (t : Int) : s.trim.rowAt t = s.rowAt t :=
+  trim_rowAt s hrows t
+
+example : (reimport (fun _ => "") (⟨.Q, [8082, 8080, 8080, 8077], []⟩ : Block Nat)
+    ("a", ⟨.Q, 8080, 1, [[some 1], [none], [some 3]], ""⟩)).2 = ⟨.Q, 8080, 1, [[some 1], [none], [some 3]], ""⟩ := by decide
+
+/-- **layout of the written grid**: for any mix of block lengths and variant counts and any selection of periods every row of
+the grid -- name row, description row, data rows, padding rows -- has the same number of cells, one date cell, one cell per
+variant of every series and one separator cell per block (so the reader's rectangularity check never fires on what the
+exporter writes) -/
+theorem csv_grid_rectangular (c : Codec V) (d : Bool) (fs : FSpan) (db : Box (Ser V) V) (hdb : ExportableDatabox db) :
+    ∀ r ∈ exportGridWith c d fs db, r.length = widths (exportBlocksWith fs (seriesOf db)) :=
+  exportGridWith_rectangular c d fs db hdb.names hdb.rows (fit_exportBlocksWith fs (seriesOf db))
+
+example : ((exportGrid sdmxCodec true [("a", .ser ⟨.Q, 8080, 3, [[none, none, none]], "d"⟩), ("b", .ser ⟨.Q, 8079, 1, [[none], [none], [none]], ""⟩),
+    ("i", .ser ⟨.I, 5, 2, [[none, none], [none, none]], ""⟩)]).map List.length) = [10, 10, 10, 10, 10] := by decide
+
 /-- the hypotheses of `csv_selection_roundtrip` are met by a descending, stepped selection on a two-series databox -/
 example : ExportableDatabox (V := Nat) [("a", .ser ⟨.Q, 8080, 1, [[some 1], [none], [some 3]], ""⟩), ("k", .scalar none)]
     ∧ SelectionOK (V := Nat) [(.Q, some [8082, 8080, 8077])] [("a", .ser ⟨.Q, 8080, 1, [[some 1], [none], [some 3]], ""⟩), ("k", .scalar none)] := by
@@ -652,6 +679,32 @@ theorem slate_ops_basePeriods (sl : Slate V) (ops : List SlateOp) :
 example : (applySlateOps (Slate.mk ["a"] BFreq.Q 8076 6 [2, 3] [[[some 1, some 2, some 3, some 4, some 5, some (6 : Nat)]]] (-2) 1)
     [.removeStart 2, .removeEnd 1, .addEnd 2]).cellAt 0 0 8079 = some 4 := by decide
 
+
+/-- **`to_databox` of any dataslate, cell by cell** (`Slate.cellAt`: the cell at an absolute period, NaN outside) -/
+theorem slate_output_cells (sl : Slate V) (out : List (String × Ser V)) (hout : toDatabox sl false = .ok out)
+    (hnd : sl.names.Nodup) (n : String) (hn : n ∈ sl.names) :
+    ∃ k s, sl.names[k]? = some n ∧ lookup out n = some s ∧ s.freq = sl.freq ∧ s.start = sl.start
+      ∧ s.nv = sl.variants.length ∧ s.rows.length = sl.len
+      ∧ ∀ v, v < sl.variants.length → ∀ i, i < sl.len →
+          (s.rows[i]?.bind (·[v]?)) = some (sl.cellAt v k (sl.start + (i : Int))) :=
+  toDatabox_cellAt sl out hout hnd n hn
+
+/-- **any sequence of period operations followed by `to_databox`, in one statement**: output cell (period `i` from the new start,
+variant `v`) = the converted value of that absolute period if no operation of the sequence removed it, NaN otherwise -/
+theorem slate_ops_then_output (sl : Slate V) (ops : List SlateOp) (out : List (String × Ser V))
+    (hout : toDatabox (applySlateOps sl ops) false = .ok out) (hnd : (applySlateOps sl ops).names.Nodup)
+    (n : String) (hn : n ∈ (applySlateOps sl ops).names) (hrec : ∀ v k, v < (applySlateOps sl ops).variants.length →
+      (applySlateOps sl ops).names[k]? = some n → sl.hasRecord v k) :
+    ∃ k s, (applySlateOps sl ops).names[k]? = some n ∧ lookup out n = some s ∧ s.start = (applySlateOps sl ops).start
+      ∧ ∀ v, v < (applySlateOps sl ops).variants.length → ∀ i, i < (applySlateOps sl ops).len →
+          (s.rows[i]?.bind (·[v]?)) = some (if aliveAfter sl ops ((applySlateOps sl ops).start + (i : Int))
+            then sl.cellAt v k ((applySlateOps sl ops).start + (i : Int)) else none) :=
+  slate_ops_then_toDatabox sl ops out hout hnd n hn hrec
+
+example : toDatabox (applySlateOps (Slate.mk ["a"] BFreq.Q 8076 6 [2, 3] [[[some 1, some 2, some 3, some 4, some 5, some (6 : Nat)]]] (-2) 1)
+    [.removeStart 2, .removeEnd 2, .addEnd 1]) false
+      = .ok [("a", ⟨.Q, 8078, 1, [[some 3], [some 4], [none]], ""⟩)] := by decide
+
 end Slate
 
 /-! ### Databox operations: the frame condition -/
@@ -786,6 +839,41 @@ theorem rename_fresh (db : Box S V) (src : Sel) (tgt : Tgt) (strict : Bool)
     rename db src tgt strict = .ok (db.filter (fun q => !((resolvePairs (keys db) src tgt strict).map (·.1)).contains q.1)
       ++ (resolvePairs (keys db) src tgt strict).filterMap (fun st => (lookup db st.1).map (fun v => (st.2, v)))) :=
   renamePairs_fresh db _ hs hin ht hfresh
+
+
+/-- **when overlay / underlay / prepend apply**: exactly when both items are series, the own series has a known frequency and the
+two frequencies are equal -- for every frequency alike (yearly … daily, integer) -/
+theorem lay_applies_iff (o : SOps S) (db other : Box S V) (n : String) :
+    layAct o db other n = .apply ↔
+      ∃ s t, lookup db n = some (.ser s) ∧ lookup other n = some (.ser t) ∧ o.freq s ≠ .U ∧ o.freq s = o.freq t :=
+  layAct_apply_iff o db other n
+
+example : layAct (V := Nat) ⟨fun (_ : Nat) => BFreq.I, (· + ·), (· + ·), fun a _ _ => a, (· + ·)⟩ [("x", .ser 1)] [("x", .ser 2)] "x"
+    = .apply := by decide
+
+/-- **rename onto an existing name** (sequential `self[t] = self.pop(s)`): the source disappears, the target keeps its place and is
+re-bound to the source's value, its old value is lost, every other binding is unchanged -/
+theorem rename_onto_existing_name (db : Box S V) (s t : String) (v : Item S V) (hs : lookup db s = some v) (hst : s ≠ t) :
+    renamePairs db [(s, t)] = .ok (setKey (delKey db s) t v)
+      ∧ lookup (setKey (delKey db s) t v) t = some v
+      ∧ lookup (setKey (delKey db s) t v) s = none
+      ∧ ∀ n, n ≠ s → n ≠ t → lookup (setKey (delKey db s) t v) n = lookup db n :=
+  rename_onto_existing db s t v hs hst
+
+example : rename (S := Nat) (V := Nat) [("a", .ser 1), ("b", .ser 2), ("c", .ser 3)] (.names ["a", "b"]) (.names ["b", "z"]) false
+    = .ok [("c", .ser 3), ("z", .ser 1)] := by decide
+
+/-- **merge as a dictionary equation** (one incoming databox): every name is bound to `mergeSpec` of its old and its incoming
+binding -- a new name takes the incoming value, an existing name the strategy's result (stack: `hstack` of two series or the
+concatenated lists; replace: the incoming value; discard / reporting strategies: the old value), other names stay -/
+theorem merge_every_name (o : SOps S) (st : Strategy) (t : Box S V) (ht : (keys t).Nodup) (db r : Box S V) (dup : Bool)
+    (h : mergeOne o st db t = .ok (r, dup)) (k : String) :
+    lookup r k = mergeSpec o st (lookup db k) (lookup t k) :=
+  mergeOne_lookup o st t ht db r dup h k
+
+example : merge (V := Nat) ⟨fun (_ : Nat) => BFreq.I, (· + ·), (· + ·), fun a _ _ => a, (· * ·)⟩ .stack
+    [("a", .ser 2), ("k", .scalar (some 1))] [[("a", .ser 5), ("k", .list [none, some 7]), ("z", .ser 9)]]
+      = .ok [("a", .ser 10), ("k", .list [some 1, none, some 7]), ("z", .ser 9)] := by decide
 
 /-- **lifting to sequences**: in any sequence of operations, a name is finally bound to what the last operation that selects it
 made of it -- if the operations after `op` do not select `n`, the final binding of `n` is its binding right after `op` (which
